@@ -415,6 +415,8 @@ static void scen_rolling(int si, int route, rng_t *r)
         uint32_t n = rng_below(r, 3) ? rng_below(r, 200) : rng_below(r, 5000);
         snprintf(scen, sizeof scen, "rolling %s %s w=%u n=%u", scan_name[si], route_name[route], w, n);
         struct isal_rh_state2 *st = (void *) AL(sizeof *st, 64, 1);
+        /* in some of the hidden-state variants the not yet initialised state is not a byte pattern but "plausible": every word holds the requested window */
+        if (mode == M_HIDDEN && (H.vec[1] & 1)) for (size_t i = 0; i + 4 <= sizeof *st; i += 4) memcpy((uint8_t *) st + i, &w, 4);
         uint8_t *init = AL(48, 1, 0), *data = AL(n + 1, 1, 0);
         rng_fill(r, init, 48); rng_fill(r, data, n);
         uint32_t mask = (1u << rng_below(r, 12)) - 1, trig = (uint32_t) rng_u64(r) & mask;
